@@ -1,7 +1,7 @@
 (* C07 — identical computations map to the same cache identity in every session. *)
 From Coq Require Import Sorting.Permutation.
 From Pydra Require Import Base.Prelude Base.PySort Model.Hash Spec.Hash Proofs.HashSort Proofs.HashCtx
-     Proofs.HashOrder Proofs.HashDom Proofs.HashRefuted Proofs.HashTask Proofs.HashExamples.
+     Proofs.HashOrder Proofs.HashDom Proofs.HashRefuted Proofs.HashTask Proofs.HashExamples Proofs.HashOrderDeep.
 
 (* What another session can change about equal inputs: the iteration order of every set / frozenset (hash
    randomisation), the insertion order of every dict, and every object identity (pickling round trip, separate
@@ -59,3 +59,19 @@ Theorem C07_example : forall H,
     (forall kv, In kv [("x"%string, ex_s2)] -> hashable_acyclic H ex_env2 (snd kv)).
 Proof. exact ex_session_hyps. Qed.
 Print Assumptions C07_example.
+
+(* the same with inputs whose sets are re-ordered at every nesting level at once ([session_variant_deep]: field
+   values related by [operm], which carries, per set node, "elements pairwise distinct, totally ordered by `<`, and
+   `<` answers alike in both sessions"); nested frozensets that form a chain are inside, incomparable ones (F07) not *)
+Theorem C07_seed_independent_deep :
+  forall H env1 env2 ty f1 f2,
+    session_variant_deep f1 f2 ->
+    (forall kv, In kv f1 -> hashable_acyclic H env1 (snd kv)) ->
+    (forall kv, In kv f2 -> hashable_acyclic H env2 (snd kv)) ->
+    checksum H ty f1 = checksum H ty f2.
+Proof. exact checksum_session_independent_deep. Qed.
+Print Assumptions C07_seed_independent_deep.
+
+Theorem C07_deep_example : operm nx_v1 nx_v2 /\ session_variant_deep [("x"%string, nx_v1)] [("x"%string, nx_v2)].
+Proof. split; [exact nested_operm|]. constructor; [split; [reflexivity|exact nested_operm]|constructor]. Qed.
+Print Assumptions C07_deep_example.
